@@ -407,6 +407,7 @@ class Canonicalizer:
                 set_parents(new, owner)
             self._module_constants(mod, new)
             set_parents(new, owner)
+            self._functional_forms(new)
             if self._desugar_comprehensions(new):
                 set_parents(new, owner)
             for _ in range(20):
@@ -421,6 +422,9 @@ class Canonicalizer:
             for _ in range(40):
                 if not (self._hoist_round(mod, new, fn) or self._inline_round(mod, new, fn)):
                     break
+                set_parents(new, owner)
+            self._functional_forms(new)
+            if self._desugar_comprehensions(new):
                 set_parents(new, owner)
             for _ in range(20):
                 if not self._lift_conditionals(new):
@@ -587,11 +591,23 @@ class Canonicalizer:
             elif isinstance(st, ast.AnnAssign) and isinstance(st.value, ast.Call) and isinstance(st.target, ast.Name):
                 call, target = st.value, st.target
             materialise = None
+            mat_ctor = None
+            if isinstance(st, ast.Return) and isinstance(st.value, ast.Call) and isinstance(st.value.func, ast.Name) and st.value.func.id in ("list", "dict", "odict", "OrderedDict") \
+                    and len(st.value.args) == 1 and not st.value.keywords and isinstance(st.value.args[0], ast.Call):
+                r0 = self._helper_of(mod, orig, new, st.value.args[0])
+                if r0 and _is_generator(r0[0]):
+                    # return ctor(generator_helper(...))  ->  _acc = ctor(generator_helper(...)); return _acc     (materialised by the next round)
+                    acc = f"_acc{next(_counter)}"
+                    a_ = ast.copy_location(ast.Assign(targets=[ast.Name(id=acc, ctx=ast.Store())], value=st.value, lineno=st.lineno), st)
+                    r_ = ast.copy_location(ast.Return(value=ast.Name(id=acc, ctx=ast.Load())), st)
+                    self._replace_stmt(new, st, [a_, r_])
+                    return True
             if isinstance(st, ast.Assign) and len(st.targets) == 1 and isinstance(st.targets[0], ast.Name) and isinstance(st.value, ast.Call) \
-                    and isinstance(st.value.func, ast.Name) and st.value.func.id == "list" and len(st.value.args) == 1 and not st.value.keywords \
+                    and isinstance(st.value.func, ast.Name) and st.value.func.id in ("list", "dict", "odict", "OrderedDict") and len(st.value.args) == 1 and not st.value.keywords \
                     and isinstance(st.value.args[0], ast.Call):
-                # X = list(generator_helper(...)): the helper's yields become appends to X
+                # X = list(generator_helper(...)): the helper's yields become appends to X;  X = dict(generator_helper(...)): `yield k, v` becomes X[k] = v
                 call, target, gen, materialise = st.value.args[0], None, True, st.targets[0].id
+                mat_ctor = st.value.func.id
             elif isinstance(st, ast.Return) and isinstance(st.value, ast.Call) and st is new.body[-1]:
                 call = st.value
                 target = "RETURN"
@@ -675,8 +691,17 @@ class Canonicalizer:
                 if any(isinstance(n, ast.Name) and n.id == materialise for x in new_body for n in ast.walk(x)):
                     continue
 
+                as_dict = mat_ctor in ("dict", "odict", "OrderedDict")
+                if as_dict and any((isinstance(n, ast.YieldFrom) or (isinstance(n, ast.Yield) and not (isinstance(n.value, ast.Tuple) and len(n.value.elts) == 2)))
+                                   for x in new_body for n in ast.walk(x)):
+                    continue   # not a producer of (key, value) pairs
+
                 class _Y(ast.NodeTransformer):
                     def visit_Expr(self, node):
+                        if isinstance(node.value, ast.Yield) and as_dict:
+                            k_, v_ = node.value.value.elts
+                            return ast.copy_location(ast.Assign(targets=[ast.Subscript(value=ast.Name(id=materialise, ctx=ast.Load()), slice=k_, ctx=ast.Store())], value=v_,
+                                                                lineno=getattr(node, "lineno", 0)), node)
                         if isinstance(node.value, ast.Yield):
                             v = node.value.value if node.value.value is not None else ast.Constant(value=None)
                             return ast.copy_location(ast.Expr(value=ast.Call(func=ast.Attribute(value=ast.Name(id=materialise, ctx=ast.Load()), attr="append", ctx=ast.Load()),
@@ -694,7 +719,8 @@ class Canonicalizer:
                 new_body = [_Y().visit(x) for x in new_body]
                 if any(isinstance(n, (ast.Yield, ast.YieldFrom)) for x in new_body for n in ast.walk(x)):
                     continue   # a yield used as an expression: not a plain producer
-                init = ast.copy_location(ast.Assign(targets=[ast.Name(id=materialise, ctx=ast.Store())], value=ast.List(elts=[], ctx=ast.Load()), lineno=st.lineno), st)
+                init_v = ast.Call(func=ast.Name(id=mat_ctor, ctx=ast.Load()), args=[], keywords=[]) if as_dict else ast.List(elts=[], ctx=ast.Load())
+                init = ast.copy_location(ast.Assign(targets=[ast.Name(id=materialise, ctx=ast.Store())], value=init_v, lineno=st.lineno), st)
                 new_body = [init] + new_body
             if not new_body:
                 new_body = [ast.copy_location(ast.Pass(), st)]
@@ -734,6 +760,32 @@ class Canonicalizer:
                 stmts = getattr(blk, field, None)
                 if not isinstance(stmts, list):
                     continue
+                # `x, y, z = [f(t) for t in (a, b, c)]`  (list / generator / tuple(...) of one)  ->  x = f(a); y = f(b); z = f(c)
+                for i, u in enumerate(stmts):
+                    if not (isinstance(u, ast.Assign) and len(u.targets) == 1 and isinstance(u.targets[0], (ast.Tuple, ast.List)) and all(isinstance(e, ast.Name) for e in u.targets[0].elts)):
+                        continue
+                    v = u.value
+                    if isinstance(v, ast.Call) and isinstance(v.func, ast.Name) and v.func.id in ("tuple", "list") and len(v.args) == 1 and not v.keywords:
+                        v = v.args[0]
+                    if not (isinstance(v, (ast.ListComp, ast.GeneratorExp)) and len(v.generators) == 1 and not v.generators[0].ifs and not v.generators[0].is_async
+                            and isinstance(v.generators[0].target, ast.Name)):
+                        continue
+                    g = v.generators[0]
+                    it = g.iter
+                    if not (isinstance(it, (ast.List, ast.Tuple)) and len(it.elts) == len(u.targets[0].elts) and 1 <= len(it.elts) <= 8 and all(_simple(e) for e in it.elts)):
+                        continue
+                    tnames = [e.id for e in u.targets[0].elts]
+                    clash = any({n.id for n in ast.walk(e) if isinstance(n, ast.Name)} & set(tnames[:j]) for j, e in enumerate(it.elts))
+                    body_names = {n.id for n in ast.walk(v.elt) if isinstance(n, ast.Name)} - {g.target.id}
+                    if clash or (body_names & set(tnames)):
+                        continue
+                    seq = []
+                    for t_, e in zip(tnames, it.elts):
+                        val = _Subst({g.target.id: e}).visit(clone(v.elt))
+                        seq.append(ast.copy_location(ast.Assign(targets=[ast.Name(id=t_, ctx=ast.Store())], value=val, lineno=u.lineno), u))
+                    stmts[i:i + 1] = seq
+                    self.notes.append(f"unrolled a comprehension over {len(seq)} elements in {new.name}")
+                    return True
                 for i in range(len(stmts) - 2):
                     a, lp, u = stmts[i], stmts[i + 1], stmts[i + 2]
                     pre = []
@@ -839,6 +891,34 @@ class Canonicalizer:
                 self._replace_stmt(new, st, [ast.copy_location(ast.If(test=test, body=list(st.body), orelse=list(st.handlers[0].body)), st)])
                 return True
         return False
+
+    # ------------------------------------------------------------------ list(filter(f, xs)) / list(map(f, xs)) -> comprehensions
+    def _functional_forms(self, new: ast.FunctionDef) -> None:
+        used = {n.id for n in ast.walk(new) if isinstance(n, ast.Name)} | {a.arg for a in new.args.args + new.args.kwonlyargs}
+
+        class _F(ast.NodeTransformer):
+            def visit_Call(self, node):
+                self.generic_visit(node)
+                if isinstance(node.func, ast.Name) and node.func.id in ("list", "set", "tuple") and len(node.args) == 1 and not node.keywords and isinstance(node.args[0], ast.Call) \
+                        and isinstance(node.args[0].func, ast.Name) and node.args[0].func.id in ("filter", "map") and len(node.args[0].args) == 2 and not node.args[0].keywords:
+                    inner = node.args[0]
+                    f, xs = inner.args
+                    if isinstance(f, ast.Constant) or not _side_effect_free(f) or node.func.id == "tuple":
+                        return node
+                    v = f"_it{next(_counter)}"
+                    while v in used:
+                        v = f"_it{next(_counter)}"
+                    if isinstance(f, ast.Lambda) and len(f.args.args) == 1 and not f.args.defaults:
+                        applied = _Subst({f.args.args[0].arg: ast.Name(id=v, ctx=ast.Load())}).visit(clone(f.body))
+                    else:
+                        applied = ast.Call(func=clone(f), args=[ast.Name(id=v, ctx=ast.Load())], keywords=[])
+                    gen = ast.comprehension(target=ast.Name(id=v, ctx=ast.Store()), iter=xs, ifs=[applied] if inner.func.id == "filter" else [], is_async=0)
+                    elt = ast.Name(id=v, ctx=ast.Load()) if inner.func.id == "filter" else applied
+                    comp = ast.ListComp(elt=elt, generators=[gen]) if node.func.id == "list" else ast.SetComp(elt=elt, generators=[gen])
+                    return ast.copy_location(comp, node)
+                return node
+        new.body = [_F().visit(st) for st in new.body]
+        ast.fix_missing_locations(new)
 
     # ------------------------------------------------------------------ comprehensions at statement level -> loops
     def _desugar_comprehensions(self, new: ast.FunctionDef) -> bool:
